@@ -398,7 +398,7 @@ def _driver_run(ch, tr):
 
 WORKLOADS = [
     Workload(
-        name="driver", run=_driver_run, runs={"quick": 160, "thorough": 12_000}, chunk=10, run_timeout=300.0,
+        name="driver", run=_driver_run, runs={"quick": 160, "thorough": 6_000}, chunk=10, run_timeout=300.0,
         real=["pp.run_time_dependent_model", "pp.NewtonSolver", "SolutionStrategy hooks", "pp.TimeManager", "EquationSystem", "SinglePhaseFlow physics"],
         stub=["fault-injecting overrides of check_convergence / solve_linear_system (pass the real answer through when no fault is due)", "save_data_time_step is a no-op"],
         note="same clock clauses as tm_walk, observed around the real solve in the real time loop",
